@@ -1,1 +1,69 @@
-(* placeholder, replaced below *)
+(* C01 — operators compute exact integer results in shapes that never overflow.
+   Statements only; proofs in Proofs/ExprP.v, Proofs/GenEqOps.v. *)
+From Coq Require Import ZArith List Bool.
+From V.Model Require Import Bits Shape Ast Denote PyRTL PyEval.
+From V.Proofs Require Import BitsP ShapeP ExprP GenEqOps.
+From V.Gen Require OpShape.
+Import ListNotations.
+Open Scope Z_scope.
+
+(* The shape reported for every well-formed expression (any nesting depth, any operand shapes) is a valid
+   shape and contains the exact Python-integer result: no operator overflows, wraps or loses a sign. *)
+Theorem C01_shape_sound en e : wf_expr e = true -> env_ok en e ->
+  wf_shape (shape_of e) = true /\ in_range (shape_of e) (denote en e).
+Proof. exact (shape_sound en e). Qed.
+Print Assumptions C01_shape_sound.
+
+(* The Python expression the simulator compiles for a circuit (raw, un-normalised intermediates included),
+   normalised to the expression's shape, is exactly the denotation — at every nesting depth. *)
+Theorem C01_rtl_correct en e : wf_expr e = true -> env_ok en e ->
+  norm (shape_of e) (eval_rtl en e) = denote en e.
+Proof. exact (rtl_correct en e). Qed.
+Print Assumptions C01_rtl_correct.
+
+(* A signal of any shape s driven combinationally by e holds the denotation truncated / extended by
+   e's own signedness. *)
+Theorem C01_drive_spec s en e : wf_shape s = true -> wf_expr e = true -> env_ok en e ->
+  rtl_drive s en e = norm s (denote en e).
+Proof. exact (rtl_drive_spec s en e). Qed.
+Print Assumptions C01_drive_spec.
+
+(* per-operator soundness of the documented result shapes, for all operand shapes and values *)
+Theorem C01_op1_sound o sa a : wf_shape sa = true -> in_range sa a -> (o = OS -> 0 < width sa) ->
+  wf_shape (op1_shape o sa) = true /\ in_range (op1_shape o sa) (den_op1 o sa a).
+Proof. exact (op1_sound o sa a). Qed.
+Print Assumptions C01_op1_sound.
+
+Theorem C01_op2_sound o sa sb a b : wf_shape sa = true -> wf_shape sb = true ->
+  in_range sa a -> in_range sb b ->
+  (match o with OShl | OShr => sgn sb = false | _ => True end) ->
+  wf_shape (op2_shape o sa sb) = true /\ in_range (op2_shape o sa sb) (den_op2 o a b).
+Proof. exact (op2_sound o sa sb a b). Qed.
+Print Assumptions C01_op2_sound.
+
+(* switch patterns: the int(..., 2) / mask arithmetic of the generated code is per-bit matching *)
+Theorem C01_pattern_match p t : 0 <= t < 2 ^ Z.of_nat (length p) -> pat_match t p = pat_sem p t.
+Proof. exact (pat_match_sem p t). Qed.
+Print Assumptions C01_pattern_match.
+
+(* Operator.shape regenerated from /repo by the translator equals the model's shape rules *)
+Theorem C01_gen_op1_shape o sa : OpShape.op1_shape (op1_name o) sa = Some (op1_shape o sa).
+Proof. exact (op1_shape_eq o sa). Qed.
+Print Assumptions C01_gen_op1_shape.
+Theorem C01_gen_op2_shape o sa sb : (match o with OShl | OShr => sgn sb = false | _ => True end) ->
+  OpShape.op2_shape (op2_name o) sa sb = Some (op2_shape o sa sb).
+Proof. exact (op2_shape_eq o sa sb). Qed.
+Print Assumptions C01_gen_op2_shape.
+
+(* non-vacuity: (~a).bit_select(off, 4) + (b * -3 >> 1) on concrete signals is well-formed, in range, and
+   circuit = spec *)
+Definition ex_e : expr :=
+  EOp2 OAdd (EPart (EOp1 ONot (ESig 0 (Sh 4 false))) (ESig 1 (Sh 3 false)) 4 1)
+            (EOp2 OShr (EOp2 OMul (ESig 2 (Sh 3 true)) (EConst (-3) (Sh 3 true))) (EConst 1 (Sh 1 false))).
+Definition ex_env : env := fun i => match i with O => 0 | S O => 4 | _ => -4 end.
+Example C01_example :
+  wf_expr ex_e = true /\ denote ex_env ex_e = 6 /\ norm (shape_of ex_e) (eval_rtl ex_env ex_e) = 6
+  /\ shape_of ex_e = Sh 8 true.
+Proof. vm_compute. repeat split. Qed.
+Example C01_example_env_ok : env_ok ex_env ex_e.
+Proof. cbv [env_ok ex_e ex_env in_range sgn width]. repeat split; vm_compute; congruence. Qed.
